@@ -228,6 +228,11 @@ def slices_to_raw_chunks(slice_filename_lists, dest_url, input_orientation,
         # free up memory before reading next block (prevent doubled memory
         # usage)
         del block
+    # A sharded accessor buffers its output: write it now rather than from the
+    # exit handler, whose errors are ignored by the interpreter (the command
+    # would report success without having written the shards).
+    if hasattr(accessor, "close"):
+        accessor.close()
 
 
 def convert_slices_in_directory(slice_dirs, dest_url, input_orientation="RAS",
